@@ -438,6 +438,10 @@ class OpContainerSerial(e1.Op):
         a = g.rng.choice(special) if special and g.rng.random() < 0.7 else g.rng.choice(c)
         v = g.task.slots[a]
         routes = [r for r in C_ROUTES if (r != "hdf5" or isinstance(v, mps.MpsMpoOBC))]
+        if isinstance(v, (fpeps.EnvBP, fpeps.EnvCTM, fpeps.EnvBoundaryMPS)):
+            # the deprecated save_to_dict/load_from_dict pair is not among the routes the property names; for environments it is lossy by design
+            # (EnvBP re-derives the message factors with eigh + sqrt + qr and fails on rank-deficient messages: observation, DESIGN 7.4)
+            routes = [r for r in routes if r != "legacy"]
         if getattr(v, "pC", None) is not None:
             routes += ["hdf5", "hdf5", "legacy", "split"]       # routes that treat the central block specially
         return {"op": "c_serial", "in": [a], "args": {"route": g.rng.choice(routes), "level": g.rng.choice([0, 1, 2]), "fseed": g.rng.randrange(1 << 30)}}
